@@ -346,8 +346,13 @@ func (c *Conn) handleMail(arg string) {
 	for key, value := range args {
 		switch key {
 		case "SIZE":
-			size, err := strconv.ParseUint(value, 10, 32)
+			size, err := strconv.ParseUint(value, 10, 63)
 			if err != nil {
+				if errors.Is(err, strconv.ErrRange) && c.server.MaxMessageBytes > 0 {
+					// A number too large for int64 is above any limit.
+					c.writeResponse(552, EnhancedCode{5, 3, 4}, "Max message size exceeded")
+					return
+				}
 				c.writeResponse(501, EnhancedCode{5, 5, 4}, "Unable to parse SIZE as an integer")
 				return
 			}
